@@ -3,6 +3,7 @@ NEXT Stutter
 CONSTANTS
   SmallBound = 32
   SmallShift = 5
+  SmallShrCount = 12
   Range <- RangeTiny
   ClassSet <- ClassesAll
   CoreSet <- ClassesCore
